@@ -353,7 +353,7 @@ theorem built_image (opt : WOpts) (hok : WOptsOK opt) (rp : FilterPolicy)
              di.handle.offset + di.handle.size + 5 ≤ dj.handle.offset)
         ∧ (∀ d ∈ t.blocks, d.handle.offset + d.handle.size + 5 ≤ t.metaHandle.offset)
         ∧ (∀ d, t.blocks[0]? = some d → d.handle.offset = 0) := by
-  obtain ⟨hlen, t, himg, twf, hent, ⟨fh, hmeta⟩, ⟨fb, hfv, hsound⟩, hord, hbefore, hfirst⟩ :=
+  obtain ⟨hlen, t, himg, twf, hent, ⟨fh, hmeta⟩, ⟨fb, hfv, hsound⟩, hord, hbefore, hfirst, _⟩ :=
     build_any_sink_wf opt hok sched es t0 n hb hn hsz
   have hnum := BR.build_numEntries opt hok sched es t0 n hb hn hsz
   exact ⟨hlen, hnum, t, himg, by rw [himg, hlen], twf, hent,
